@@ -106,11 +106,12 @@ CONE = {}
 
 STAGES = {
     "C01": {"nfa", "dfa", "flags", "joined", "simplified"},
-    "C02": {"nfa", "dfa"},
+    "C02": {"nfa", "dfa", "tables"},
     "C03": {"joined", "simplified", "dispatch", "ruleset-count"},
-    "C04": {"nfa", "dfa", "ctx-count"},
+    "C04": {"nfa", "dfa", "ctx-count", "tables"},
     "C05": {"dfa", "simplified"},
-    "C12": {"nfa", "dfa", "flags", "joined", "simplified", "dispatch", "ruleset-count", "ctx-count"},
+    "C11": {"tables"},
+    "C12": {"nfa", "dfa", "flags", "joined", "simplified", "dispatch", "ruleset-count", "ctx-count", "tables"},
 }
 
 
